@@ -112,14 +112,13 @@ def main():
         if rc == 0 and "seed" in case and not os.environ.get("PV_REPLAY_NO_RERUN"):
             # the recorded input alone does not fail: the violation depended on the history of the run (a cache, shared
             # state, an operation sequence) or no single input was found.  The run is deterministic in (seed, tier):
-            # re-run it (without rebuilding the proofs unless they were what broke).
+            # re-run it.
             print("replay: recorded input alone does not reproduce; re-running the check with seed=%s tier=%s" % (
                 case["seed"], case.get("tier", "quick")))
             env = dict(os.environ, VERIF_SEED=str(case["seed"]), PV_EVIDENCE_DIR=os.path.join(lib.ROOT, "replays", "_rerun_evidence"),
                        PV_REPLAY_DIR=os.path.join(lib.ROOT, "replays", "_rerun"))
+            # (a full run: the generated files and the driver are rebuilt from the tree as it is now)
             cmd = [sys.executable, os.path.abspath(__file__), pid, "--tier", case.get("tier", "quick")]
-            if not case.get("no_failing_input_found"):
-                cmd.append("--no-build")
             import subprocess
             p = subprocess.run(cmd, env=env, stdout=subprocess.PIPE, stderr=subprocess.STDOUT)
             out = p.stdout.decode(errors="replace")
@@ -144,13 +143,16 @@ def main():
             if not ok_d:
                 ctx.driver_ok = False
                 ctx.tie_broken("build-driver", log_d[-1500:])
-            equiv = getattr(mod, "EQUIV", {})     # T-C: {module: [theorem names]} generated kernel = model
+            equiv = dict(getattr(mod, "EQUIV", {}))     # T-C: {module: [theorem names]} generated kernel = model
+            for m in getattr(mod, "EXTRA_PROPS", []):   # further files holding only property theorems (all are obligations)
+                names = lib.theorems_of(os.path.join(lib.LEAN, m.replace(".", "/") + ".lean"))
+                equiv[m] = [n[len(m) + 1:] if n.startswith(m + ".") else "::" + n for n in names]
             ok_p, log_p = lib.lake_build(list(mod.LEAN_TARGETS) + sorted(equiv))
         except Exception as e:  # noqa
             print("infrastructure failure: %s" % e)
             return 2
         ctx.obligations = lib.theorems_of(props_file)
-        equiv_names = {m: ["%s.%s" % (m, n) for n in names] for m, names in equiv.items()}
+        equiv_names = {m: [(n[2:] if n.startswith("::") else "%s.%s" % (m, n)) for n in names] for m, names in equiv.items()}
         for m in sorted(equiv_names):
             ctx.obligations += equiv_names[m]
         failed = []
